@@ -64,3 +64,52 @@ def static_part(ctx):
     if not bad:
         raise C.HarnessError("generated guard obligations fail to build but no theorem could be blamed:\n" + (r.stdout + r.stderr)[-1500:])
     return bad, len(table), table
+
+
+def effects_part(ctx):
+    """regenerate the effect trees of the setters (translate_effects), rebuild `PsVerif.Generated.Effects`; returns the names of the
+    generated theorems that no longer check (`atomic_<id>`), or of the sites that are no longer translatable"""
+    from . import translate_effects as E
+    sites = E.emit(E.analyse(C.REPO), C.LEAN / "PsVerif" / "Generated" / "Effects.lean")
+    obl = [s for s in sites if s["obligation"]]
+    ctx.extra["generated_effect_sites"] = {f"{s['cls']}.{s['func']}": ("untranslatable: " + s["why"] if not s["found"] else
+                                                                        ("atomic" if s["atomic_py"] else "NOT atomic") + ("" if s["obligation"] else " (information only)"))
+                                           for s in sites}
+    for s in obl[:1]:
+        if s["found"]:
+            ctx.sample({"generated_effect_tree": s["id"], "function": f"{s['file']}::{s['cls']}.{s['func']}", "tree": s["tree"][:400]}, limit=4)
+    r = subprocess.run(["lake", "build", "PsVerif.Generated.Effects"], cwd=C.LEAN, capture_output=True, text=True, timeout=3600)
+    ctx.extra["generated_effects_build_ok"] = r.returncode == 0
+    missing = [f"atomic_{s['id']}" for s in obl if not s["found"]]
+    if r.returncode == 0:
+        names = [f"PsVerif.Gen.{p}_{s['id']}{q}" for s in obl if s["found"] for p, q in (("atomic", ""), ("rejected", "_writes_nothing"))]
+        aud = C.LEAN / "Audit" / "GeneratedEffects.lean"
+        text_a = "import PsVerif.Generated.Effects\n" + "\n".join(f"#print axioms {n}" for n in names) + "\n"
+        if not aud.exists() or aud.read_text() != text_a:
+            aud.write_text(text_a)
+        ra = subprocess.run(["lake", "env", "lean", "Audit/GeneratedEffects.lean"], cwd=C.LEAN, capture_output=True, text=True, timeout=3600)
+        flat = (ra.stdout + ra.stderr).replace("\n ", " ").replace("\n", " ")
+        axioms = {}
+        for m in re.finditer(r"'PsVerif\.Gen\.((?:atomic|rejected)_\w+)' (?:depends on axioms: \[([^\]]*)\]|does not depend on any axioms)", flat):
+            axioms[m.group(1)] = [a.strip() for a in (m.group(2) or "").split(",") if a.strip()]
+        nonstd = {k: [a for a in v if a not in C.ALLOWED_AXIOMS] for k, v in axioms.items()}
+        nonstd = {k: v for k, v in nonstd.items() if v}
+        if ra.returncode != 0 or len(axioms) != len(names) or nonstd:
+            raise C.HarnessError(f"axiom audit of the generated effect theorems failed: {nonstd or (ra.stdout + ra.stderr)[-800:]}")
+        ctx.extra["generated_effect_theorems"] = sorted(axioms)
+        return missing
+    text = (C.LEAN / "PsVerif" / "Generated" / "Effects.lean").read_text().splitlines()
+    bad = []
+    for m in re.finditer(r"(?:error: \S*Effects\.lean:(\d+):\d+)|(?:Effects\.lean:(\d+):\d+: error)", r.stdout + r.stderr):
+        ln = int(m.group(1) or m.group(2))
+        for k in range(min(ln, len(text)) - 1, -1, -1):
+            mm = re.match(r"theorem (atomic_\w+)|def eff_(\w+)", text[k])
+            if mm:
+                name = mm.group(1) or ("atomic_" + mm.group(2))
+                if name not in bad:
+                    bad.append(name)
+                break
+    bad += [x for x in missing if x not in bad]
+    if not bad:
+        raise C.HarnessError("generated effect obligations fail to build but no theorem could be blamed:\n" + (r.stdout + r.stderr)[-1500:])
+    return bad
